@@ -458,19 +458,17 @@ class Engine(ValueOps, ExprOps, CallOps, StmtOps):
                     self.apply_refine(rf)
                     return self.spec_body(list(s.orelse) + rest)
                 env0 = dict(st.env)
-                self.guards.append(c)
                 try:
                     self.apply_refine(rt)
                     a = self.spec_body(list(s.body) + rest)
                 finally:
-                    self.guards.pop()
+                    pass
                 st.env = dict(env0)
-                self.guards.append(mk_not(c))
                 try:
                     self.apply_refine(rf)
                     b = self.spec_body(list(s.orelse) + rest)
                 finally:
-                    self.guards.pop()
+                    pass
                 st.env = env0
                 return self.merge_ite(c, a, b)
             raise Unsupported('statement %s in a spec function' % type(s).__name__, s)
@@ -501,23 +499,19 @@ class Engine(ValueOps, ExprOps, CallOps, StmtOps):
             if c == FALSE:
                 return self.ev(node.orelse)
             saved_env = dict(self.st.env)
-            self.guards.append(c)
             try:
                 self.apply_refine(rt)          # isinstance / None tests narrow the names they mention in that branch
                 a = self.ev(node.body)
                 if a.kind == 'val':
                     a = self.narrow_if_determined(a)
             finally:
-                self.guards.pop()
                 self.st.env = dict(saved_env)
-            self.guards.append(mk_not(c))
             try:
                 self.apply_refine(rf)
                 b = self.ev(node.orelse)
                 if b.kind == 'val':
                     b = self.narrow_if_determined(b)
             finally:
-                self.guards.pop()
                 self.st.env = saved_env
             return self.merge_ite(c, a, b)
         return ExprOps.ev_IfExp(self, node)
@@ -1007,7 +1001,7 @@ class Engine(ValueOps, ExprOps, CallOps, StmtOps):
                 st.env = env_saved
                 mod_attr_objs.setdefault(node.attr, []).append(obj.term)
         for attr, arr in st.heap.items():
-            old = pre.heap.get(attr)
+            old = pre.heap.get(attr, st.decls.base_heap.get(attr))     # an attribute first touched in the body: its entry value is the base array
             if old is None or old == arr or attr in whole:
                 continue
             excl = [mk_not(mk_eq('r', o)) for o in mod_attr_objs.get(attr, [])]
@@ -1015,7 +1009,8 @@ class Engine(ValueOps, ExprOps, CallOps, StmtOps):
             goal = "(forall ((r Int)) %s)" % mk_implies(mk_and(mk_lt('r', pre.alloc), *excl),
                                                        mk_eq(mk_select(arr, 'r'), mk_select(old, 'r')))
             st.oblige(goal, 'frame: attribute %s unchanged outside modifies' % attr, fi.node.lineno, kind='ensures')
-        if st.seqh is not None and pre.seqh is not None and st.seqh != pre.seqh:
+        pre_seqh = pre.seqh if pre.seqh is not None else getattr(st.decls, 'base_seq', None)
+        if st.seqh is not None and pre_seqh is not None and st.seqh != pre_seqh:
             lists = [x for x in mods if x.startswith('list(')]
             excl = []
             for x in lists:
@@ -1026,9 +1021,11 @@ class Engine(ValueOps, ExprOps, CallOps, StmtOps):
                     continue                         # tuples are immutable; a local list has no pre-state identity
                 excl.append(mk_not(mk_eq('r', l.term)))
             goal = "(forall ((r Int)) %s)" % mk_implies(mk_and(mk_lt('r', pre.alloc), *excl),
-                                                       mk_eq(mk_select(st.seqh, 'r'), mk_select(pre.seqh, 'r')))
+                                                       mk_eq(mk_select(st.seqh, 'r'), mk_select(pre_seqh, 'r')))
             st.oblige(goal, 'frame: lists unchanged outside modifies', fi.node.lineno, kind='ensures')
-        if st.ddom is not None and pre.ddom is not None and (st.ddom != pre.ddom or st.dval != pre.dval):
+        pre_ddom = pre.ddom if pre.ddom is not None else getattr(st.decls, 'base_ddom', None)
+        pre_dval = pre.dval if pre.dval is not None else getattr(st.decls, 'base_dval', None)
+        if st.ddom is not None and pre_ddom is not None and (st.ddom != pre_ddom or st.dval != pre_dval):
             dicts = [x for x in mods if x.startswith('dict(')]
             excl = []
             for x in dicts:
@@ -1036,8 +1033,8 @@ class Engine(ValueOps, ExprOps, CallOps, StmtOps):
                 excl.append(mk_not(mk_eq('r', d.term)))
             goal = "(forall ((r Int)) %s)" % mk_implies(
                 mk_and(mk_lt('r', pre.alloc), *excl),
-                mk_and(mk_eq(mk_select(st.ddom, 'r'), mk_select(pre.ddom, 'r')),
-                       mk_eq(mk_select(st.dval, 'r'), mk_select(pre.dval, 'r'))))
+                mk_and(mk_eq(mk_select(st.ddom, 'r'), mk_select(pre_ddom, 'r')),
+                       mk_eq(mk_select(st.dval, 'r'), mk_select(pre_dval, 'r'))))
             st.oblige(goal, 'frame: dicts unchanged outside modifies', fi.node.lineno, kind='ensures')
 
     def spec_builtin_old_eval(self, text, pre):
